@@ -262,7 +262,10 @@ def site_probe(builders):
             except ValueError as e:
                 out['transposeTotalSum'] = True if 'shape too large' in str(e) else None
         else:
-            out['transposeTotalSum'] = None       # this scipy has no such failure: the flag is unobservable
+            # this scipy does not fail on bsr.sum(): the flag has no observable effect here.  Explicit
+            # 'not applicable in this environment' state: the static read is REQUIRED instead.
+            out['transposeTotalSum'] = None
+            out['transposeTotalSum_not_applicable'] = True
     except Exception:  # noqa
         out['transposeTotalSum'] = None
     return out
@@ -320,15 +323,18 @@ def site_info(repo_dir):
     dyn = None
     try:
         h = hashlib.sha256()
-        for rel in ('enspara/msm/builders.py', 'enspara/msm/libmsm.pyx', 'enspara/msm/transition_matrices.py',
-                    'enspara/msm/__init__.py', 'enspara/msm/msm.py', 'enspara/exception.py', 'enspara/__init__.py'):
+        import glob
+        rels = sorted(os.path.relpath(f_, repo_dir) for pat in ('*.py', '*.pyx', '*.pxd')
+                      for f_ in glob.glob(os.path.join(repo_dir, 'enspara', 'msm', pat)))
+        h.update(('|'.join(rels)).encode())
+        for rel in rels + ['enspara/exception.py', 'enspara/__init__.py']:
             try:
                 with open(os.path.join(repo_dir, rel), 'rb') as f:
                     h.update(f.read())
             except OSError:
                 h.update(b'missing:' + rel.encode())
         import scipy
-        h.update(('%s|%s|%s|probe-v2' % (np.__version__, scipy.__version__, sys.version)).encode())
+        h.update(('%s|%s|%s|probe-v3' % (np.__version__, scipy.__version__, sys.version)).encode())
         here = os.path.dirname(os.path.dirname(os.path.abspath(__file__)))
         cdir = os.path.join(os.path.dirname(here), '.cache', 'msm_site')
         cpath = os.path.join(cdir, h.hexdigest()[:24] + '.json')
@@ -370,8 +376,57 @@ def site_info(repo_dir):
             facts[k], source[k] = bool(s), 'static'
         else:
             facts[k], source[k] = default, 'default'
+    vacuous = sorted(k for k, v in source.items() if v == 'default')
+    static_only = sorted(k for k, v in source.items() if v == 'static')
+    if vacuous:
+        notes.append('NOT ESTABLISHED (neither probe nor static read; repaired-code default written): %s'
+                     % ', '.join(vacuous))
+    if dyn is not None and dyn.get('guard_witnesses') == 0:
+        notes.append('guard probe vacuous: no witness makes c > 0 in this environment')
     return {'facts': facts, 'source': source, 'static_agrees': agrees, 'static': static, 'dynamic': dyn,
-            'notes': notes}
+            'notes': notes, 'vacuous': vacuous, 'static_only': static_only}
+
+
+def check_site_facts(ctx, builders, generated, names, strict=False):
+    """run-time tie between the generated site facts (what the Lean model was built with) and the STAGED
+    code: in-process behavioural probe; a vacuous probe is never silent.  Returns the probe values."""
+    import stage
+    pr = site_probe(builders)
+    static = None
+    out = {}
+    if any(k in names for k in ('guard',)) and pr.get('guard_witnesses') == 0:
+        ctx.disagreement('site fact guard could not be established (probe vacuous: no witness matrix makes '
+                         'c > 0 in this environment)', {'probe': pr})
+    for k in names:
+        v = pr.get(k)
+        out[k] = v
+        if v is not None:
+            if bool(generated.get(k)) != bool(v):
+                ctx.disagreement('generated site fact %s=%s differs from the behaviour of the staged code (%s)'
+                                 % (k, generated.get(k), v), {'generated': generated, 'probe': pr})
+            continue
+        # probe inconclusive: the static read is required
+        if static is None:
+            try:
+                static = _static_site_facts(stage.REPO)
+            except Exception as e:  # noqa
+                static = {'error': str(e)[:200]}
+        na = bool(pr.get(k + '_not_applicable'))
+        if static.get(k) is None:
+            ctx.disagreement('site fact %s could not be established (probe vacuous%s, static read unavailable)'
+                             % (k, ': not applicable in this environment' if na else ''),
+                             {'probe': pr, 'static': static})
+        else:
+            ctx.tag('site-fact-static-only:' + k)
+            ctx.note('site_fact_static_only_' + k,
+                     'not applicable in this environment (static read used)' if na else 'probe inconclusive')
+            if strict and not na:
+                ctx.disagreement('site fact %s: behavioural probe inconclusive on the staged code' % k,
+                                 {'probe': pr, 'static': static})
+            elif bool(static[k]) != bool(generated.get(k)):
+                ctx.disagreement('generated site fact %s=%s differs from the static read (%s)'
+                                 % (k, generated.get(k), static[k]), {'generated': generated, 'static': static})
+    return out
 
 
 def _write_if_changed(path, text):
@@ -420,7 +475,8 @@ end Ens.Generated.MleSite
              (' notes: ' + '; '.join(info['notes'])) if info.get('notes') else ''),
             'facts': {'py': facts['py'], 'pyx': facts['pyx'], 'guard': facts['guard']},
             'static_agrees': info.get('static_agrees'), 'source': info.get('source'), 'all_facts': facts,
-            'notes': info.get('notes', [])}
+            'notes': info.get('notes', []), 'vacuous_facts': info.get('vacuous', []),
+            'static_only_facts': info.get('static_only', [])}
 
 
 # ----------------------------------------------------------------------------- helpers
@@ -1077,13 +1133,8 @@ def warn_site_check(ctx):
         compare_with_model(ctx, C, impl, got, m, '%s estimator with max_iter=0' % impl,
                            dict(case_dict(C, 'cap'), via=impl, max_iter=0))
     # the generated site facts the Lean model was built with must be the behaviour of the staged code
-    pr = site_probe(builders)
     site = ctx.driver([{'op': 'C12.site'}])[0]['ok']
-    facts = {'py': pr['py'], 'pyx': pr['pyx'], 'guard': pr['guard']}
-    for k_, v_ in facts.items():
-        if v_ is not None and bool(site.get(k_)) != bool(v_):
-            ctx.disagreement('generated MleSite fact %s=%s differs from the behaviour of the staged code (%s)'
-                             % (k_, site.get(k_), v_), {'site': site, 'probe': pr})
+    facts = check_site_facts(ctx, builders, site, ('py', 'pyx', 'guard'), strict=True)
     ctx.note('warn_call_sites', facts)
 
 
